@@ -53,10 +53,17 @@ struct Scenario {
     initial_tablets: i32,
     /// refresh: call session.refresh_metadata() between the rounds
     refresh: bool,
+    /// msb_change: (node, new sharding_ignore_msb): the node is restarted with another ignore-msb (same shard count) before the executions
+    msb_change: Option<(usize, u8)>,
     prefer_rack: String,
     failover: bool,
     tablets: Option<Vec<Tablet>>,
     keys: Vec<(i32, i64)>,
+    /// cdc: the table uses the CDC partitioner and a blob partition key; blobs[i] is the key bound for keys[i]
+    cdc: bool,
+    blobs: Vec<Vec<u8>>,
+    /// prepare_fail: every node answers its FIRST PREPARE of the statement with ERROR Overloaded
+    prepare_fail: bool,
     rounds: u64,
 }
 
@@ -126,7 +133,8 @@ fn parse_scenario(v: &Value) -> Result<Scenario, String> {
                 let mut replicas = Vec::new();
                 for r in t["replicas"].as_array().ok_or("tablet replicas missing")? {
                     let node = r[0].as_u64().ok_or("tablet replica node")? as usize;
-                    if node >= nodes.len() {
+                    // node index 99 = a host the session does not know (yet): an unknown host id in the payload
+                    if node >= nodes.len() && node != 99 {
                         return Err(format!("tablet replica node {node} out of range"));
                     }
                     replicas.push((node, r[1].as_i64().ok_or("tablet replica shard")? as i32));
@@ -138,8 +146,10 @@ fn parse_scenario(v: &Value) -> Result<Scenario, String> {
         _ => return Err("tablets: neither null nor a list".into()),
     };
     let mut keys = Vec::new();
+    let mut blobs = Vec::new();
     for k in v["keys"].as_array().ok_or("keys missing")? {
         keys.push((k["pk"].as_i64().ok_or("pk missing")? as i32, limbs_to_i64(&k["token"])?));
+        blobs.push(k["blob"].as_array().map(|a| a.iter().filter_map(|x| x.as_u64()).map(|x| x as u8).collect()).unwrap_or_default());
     }
     Ok(Scenario {
         id: v["id"].clone(),
@@ -156,6 +166,10 @@ fn parse_scenario(v: &Value) -> Result<Scenario, String> {
         nat: v["nat"].as_u64().unwrap_or(0) as u16,
         initial_tablets: v["initial_tablets"].as_i64().unwrap_or(1) as i32,
         refresh: v["refresh"].as_u64().unwrap_or(0) == 1,
+        cdc: v["cdc"].as_u64() == Some(1),
+        blobs,
+        prepare_fail: v["prepare_fail"].as_u64() == Some(1),
+        msb_change: v["msb_change"].as_object().map(|o| (o["node"].as_u64().unwrap_or(0) as usize, o["msb"].as_u64().unwrap_or(0) as u8)),
         prefer_rack: s(&v["policy"]["prefer_rack"]),
         failover: v["policy"]["failover"].as_u64().unwrap_or(0) == 1,
         tablets,
@@ -193,10 +207,10 @@ fn mock_config(sc: &Scenario) -> MockConfig {
             tables: vec![MockTable {
                 name: "t".into(),
                 columns: vec![
-                    MockColumn { name: "pk".into(), kind: "partition_key".into(), position: 0, typ: "int".into() },
+                    MockColumn { name: "pk".into(), kind: "partition_key".into(), position: 0, typ: if sc.cdc { "blob".into() } else { "int".into() } },
                     MockColumn { name: "v".into(), kind: "regular".into(), position: -1, typ: "int".into() },
                 ],
-                partitioner: Some("org.apache.cassandra.dht.Murmur3Partitioner".into()),
+                partitioner: Some(if sc.cdc { "com.scylladb.dht.CDCPartitioner".into() } else { "org.apache.cassandra.dht.Murmur3Partitioner".into() }),
             }],
         }],
         system_page_size_override: None,
@@ -234,10 +248,15 @@ fn make_handler(sc: &Scenario) -> crate::mock::Handler {
     let tablets = sc.tablets.clone();
     let keys = sc.keys.clone();
     let int = type_bytes("int").expect("type int");
-    let cols = vec![("pk".to_string(), int.clone()), ("v".to_string(), int)];
+    let cols = vec![("pk".to_string(), if sc.cdc { type_bytes("blob").expect("type blob") } else { int.clone() }), ("v".to_string(), int)];
+    let prepare_fail = sc.prepare_fail;
+    let failed_once: std::sync::Mutex<std::collections::HashSet<usize>> = std::sync::Mutex::new(std::collections::HashSet::new());
     Arc::new(move |req: &Request| -> Action {
         match req.opcode {
             0x09 => match req.query.as_deref() {
+                Some(INSERT) if prepare_fail && failed_once.lock().unwrap().insert(req.node) => {
+                    Action::Reply(Reply::Error { code: 0x1001, message: "scripted: overloaded (first PREPARE on this node)".into(), extra: vec![] })
+                }
                 Some(INSERT) => Action::Reply(Reply::Prepared {
                     id: ins_id.clone(),
                     result_metadata_id: None,
@@ -386,6 +405,29 @@ async fn run_with_mock(sc: &Scenario, mock: &MockCluster) -> Value {
         }
     }
 
+    // A node comes back reconfigured: same shard count, another sharding_ignore_msb.
+    if let Some((i, msb)) = sc.msb_change {
+        mock.stop_node(i).await;
+        let mut cfg = mock.config();
+        cfg.nodes[i].msb_ignore = msb;
+        mock.set_config(cfg);
+        tokio::time::sleep(Duration::from_millis(100)).await;
+        let t0 = Instant::now();
+        while mock.try_start_node(i).await.is_err() && t0.elapsed() < Duration::from_secs(3) {
+            tokio::time::sleep(Duration::from_millis(50)).await;
+        }
+        let t0 = Instant::now();
+        loop {
+            let control = control_conns(&mock.log());
+            let st = session.get_cluster_state();
+            let seen = st.get_nodes_info().iter().any(|n| n.address.ip() == std::net::IpAddr::V4(node_ip(i)) && n.is_connected());
+            if (seen && pool_full(sc, i, &mock.open_connections(i), &control)) || t0.elapsed() > Duration::from_secs(6) {
+                break;
+            }
+            tokio::time::sleep(Duration::from_millis(20)).await;
+        }
+    }
+
     // Down nodes.
     let node_of_ip = |ip: std::net::IpAddr| -> i64 {
         (0..sc.nodes.len()).find(|i| std::net::IpAddr::V4(node_ip(*i)) == ip).map(|i| i as i64).unwrap_or(-1)
@@ -442,7 +484,12 @@ async fn run_with_mock(sc: &Scenario, mock: &MockCluster) -> Value {
         }
         for (pk, _) in &sc.keys {
             let l = mock.log().len();
-            let res = session.execute_unpaged(&prepared, (*pk, 0i32)).await;
+            let res = if sc.cdc {
+                let blob = sc.blobs[sc.keys.iter().position(|(p, _)| p == pk).unwrap_or(0)].clone();
+                session.execute_unpaged(&prepared, (blob, 0i32)).await
+            } else {
+                session.execute_unpaged(&prepared, (*pk, 0i32)).await
+            };
             let log = mock.log();
             let frames: Vec<Value> = log[l.min(log.len())..]
                 .iter()
